@@ -162,7 +162,7 @@ def write_anc(grp, name, data, labels, units, dtype):
 
 
 def write_layout(h5, lay, group='Measurement_000/Channel_000', main_name='Raw_Data', chunks=None, compression=None,
-                 val_dtype=np.float32, val_transform=None):
+                 val_dtype=np.float32, val_transform=None, fillvalue=None):
     """val_dtype / val_transform: ancillary Values stored in another element type, mapped through a function first"""
     vt = val_transform or (lambda a: a)
     grp = h5.require_group(group)
@@ -175,6 +175,8 @@ def write_layout(h5, lay, group='Measurement_000/Channel_000', main_name='Raw_Da
         kw['chunks'] = chunks
     if compression:
         kw['compression'] = compression
+    if fillvalue is not None:
+        kw['fillvalue'] = fillvalue
     main = grp.create_dataset(main_name, data=lay.main_data(), **kw)
     main.attrs['quantity'] = 'Current'
     main.attrs['units'] = 'nA'
